@@ -2,10 +2,17 @@
 
 package jparse
 
-// Contracts for package jparse, checked by /verif/govc. Comment-only file:
-// with the build tag off it is not compiled, with it on it adds no code.
+// Contracts for package jparse, checked by /verif/govc (see /verif/DESIGN.md).
+// Comment-only file: with the build tag off it is not compiled, with it on it
+// adds no code. Blocks are keyed by function name and loop ordinal.
+
+//@ props C08
+
+// ---------------------------------------------------------------------------
+// lexer.go
 
 //@ pred lexOK(l *lexer) = l != nil && l.length == len(l.input) && 0 <= l.start && l.start <= l.current && l.current <= l.length && 0 <= l.width
+//@ pred errOK(e error) = e != nil && typeis(e, "*Error") && dyn(e, "*Error") != nil && 1 <= dyn(e, "*Error").Type && dyn(e, "*Error").Type <= 27
 
 //@ func (*lexer).nextRune
 //@   requires lexOK(l)
@@ -15,7 +22,8 @@ package jparse
 //@   assigns l.width, l.current
 
 //@ func (*lexer).backup
-//@   requires lexOK(l) && l.width <= l.current - l.start
+//@   requires lexOK(l)
+//@   requires [one-backup-per-rune] l.width <= l.current - l.start
 //@   ensures lexOK(l) && l.current == old(l.current) - l.width
 //@   assigns l.current
 
@@ -23,3 +31,96 @@ package jparse
 //@   requires lexOK(l)
 //@   ensures lexOK(l) && l.start == l.current
 //@   assigns l.start
+
+//@ func (*lexer).accept
+//@   inline
+
+//@ func (*lexer).acceptAll
+//@   inline
+//@   loop 0 invariant lexOK(l) && l.current >= old(l.current)
+//@   loop 0 invariant !b ==> l.current == old(l.current)
+//@   loop 0 decreases l.length - l.current
+
+//@ func (*lexer).newToken
+//@   requires lexOK(l)
+//@   ensures lexOK(l) && l.start == l.current && l.width == 0
+//@   ensures result.Type == tt && result.Position == old(l.start) && same(result.Value, l.input[old(l.start):l.current])
+//@   assigns l.width, l.start
+
+//@ func (*lexer).eof
+//@   requires lexOK(l)
+//@   ensures result.Type == typeEOF && result.Position == l.current && len(result.Value) == 0
+//@   assigns nothing
+
+//@ func (*lexer).error
+//@   requires lexOK(l) && 1 <= typ && typ <= 27
+//@   ensures lexOK(l) && l.start == l.current && l.width == 0
+//@   ensures result.Type == typeError && result.Position == old(l.start) && errOK(l.err) && dyn(l.err, "*Error").Type == typ
+//@   assigns l.width, l.start, l.err
+
+//@ func (*lexer).skipWhitespace
+//@   requires lexOK(l)
+//@   ensures lexOK(l) && l.start == l.current && l.current >= old(l.current)
+//@   ensures (l.err == nil && l.current < l.length) ==> !isWS(runeAt(l.input, l.current))
+//@   assigns l.width, l.current, l.start
+
+//@ func (*lexer).scanString
+//@   requires lexOK(l) && l.start == l.current && l.err == nil && quote > 0
+//@   ensures lexOK(l) && l.start == l.current
+//@   ensures (result.Type == typeString && l.err == nil && l.current > old(l.current)) || (result.Type == typeError && errOK(l.err))
+//@   ensures 0 <= result.Position && result.Position <= l.length
+//@   assigns l.width, l.current, l.start, l.err
+//@   loop 0 invariant lexOK(l) && l.current >= old(l.current)
+//@   loop 0 decreases l.length - l.current
+
+//@ func (*lexer).scanEscapedName
+//@   requires lexOK(l) && l.start == l.current && l.err == nil && quote > 0
+//@   ensures lexOK(l) && l.start == l.current
+//@   ensures (result.Type == typeNameEsc && l.err == nil && l.current > old(l.current)) || (result.Type == typeError && errOK(l.err))
+//@   ensures 0 <= result.Position && result.Position <= l.length
+//@   assigns l.width, l.current, l.start, l.err
+//@   loop 0 invariant lexOK(l) && l.current >= old(l.current)
+//@   loop 0 decreases l.length - l.current
+
+//@ func (*lexer).scanRegex
+//@   requires lexOK(l) && l.start == l.current && l.err == nil && delim > 0
+//@   ensures lexOK(l) && l.start == l.current
+//@   ensures (result.Type == typeRegex && l.err == nil && l.current > old(l.current)) || (result.Type == typeError && errOK(l.err))
+//@   ensures 0 <= result.Position && result.Position <= l.length
+//@   assigns l.width, l.current, l.start, l.err
+//@   loop 0 invariant lexOK(l) && l.current >= old(l.current)
+//@   loop 0 invariant old(l.current) - l.current <= depth && depth <= l.current - old(l.current)
+//@   loop 0 decreases l.length - l.current
+
+//@ func (*lexer).scanNumber
+//@   requires lexOK(l) && l.start == l.current && l.err == nil && l.current < l.length
+//@   requires '0' <= runeAt(l.input, l.current) && runeAt(l.input, l.current) <= '9'
+//@   ensures lexOK(l) && l.start == l.current && l.err == nil
+//@   ensures result.Type == typeNumber && l.current > old(l.current)
+//@   ensures 0 <= result.Position && result.Position <= l.length
+//@   assigns l.width, l.current, l.start
+
+//@ pred isWS(r rune) = r == ' ' || r == '\t' || r == '\n' || r == '\r' || r == '\v'
+//@ pred isSym1(r rune) = 0 <= r && r < symbol1Count && symbols1[r] > 0
+
+//@ func (*lexer).scanName
+//@   requires lexOK(l) && l.start == l.current && l.err == nil && l.current < l.length
+//@   requires !isWS(runeAt(l.input, l.current)) && !isSym1(runeAt(l.input, l.current))
+//@   ensures lexOK(l) && l.start == l.current && l.err == nil
+//@   ensures [progress] l.current > old(l.current)
+//@   ensures result.Type != typeError && result.Type != typeEOF
+//@   ensures 0 <= result.Position && result.Position <= l.length
+//@   assigns l.width, l.current, l.start
+//@   loop 0 invariant lexOK(l) && l.current >= old(l.current)
+//@   loop 0 decreases l.length - l.current
+
+//@ func (*lexer).next
+//@   requires lexOK(l)
+//@   ensures lexOK(l) && l.start == l.current
+//@   ensures [progress] result.Type == typeEOF || result.Type == typeError || l.current > old(l.current)
+//@   ensures result.Type == typeError ==> errOK(l.err)
+//@   ensures result.Type != typeError ==> l.err == old(l.err)
+//@   ensures old(l.err) != nil ==> result.Type == typeEOF
+//@   ensures 0 <= result.Position && result.Position <= l.length
+//@   assigns l.width, l.current, l.start, l.err
+//@   loop 0 invariant lexOK(l) && l.err == nil && l.current == l.start + widthAt(l.input, l.start) && l.current <= l.length
